@@ -7,12 +7,21 @@
 // file, so one harness source runs both ways.
 package vxrt
 
-import "io/fs"
+import (
+	"io/fs"
+	"time"
+)
 
 // Err is the error type the os stubs return.
-type Err struct{ Msg string }
+type Err struct {
+	Msg      string
+	NotExist bool
+}
 
 func (e *Err) Error() string { return e.Msg }
+
+// Is makes errors.Is(err, fs.ErrNotExist) work for "no such file" errors.
+func (e *Err) Is(target error) bool { return e.NotExist && target == fs.ErrNotExist }
 
 // WrapErr is what the fmt.Errorf summary returns.
 type WrapErr struct {
@@ -36,11 +45,17 @@ func (d *DirEntry) Info() (fs.FileInfo, error) { return nil, nil }
 
 // FileInfo is what the (*os.File).Stat stub returns.
 type FileInfo struct {
-	N  string
-	Sz int64
+	N   string
+	Sz  int64
+	Dir bool
 }
 
-func (f *FileInfo) Size() int64 { return f.Sz }
+func (f *FileInfo) Size() int64        { return f.Sz }
+func (f *FileInfo) Name() string       { return f.N }
+func (f *FileInfo) IsDir() bool        { return f.Dir }
+func (f *FileInfo) Mode() fs.FileMode  { return 0o644 }
+func (f *FileInfo) ModTime() time.Time { return time.Time{} }
+func (f *FileInfo) Sys() any           { return nil }
 
 // JSONValue is a Go value whose standard JSON encoding is Doc.
 type JSONValue struct{ Doc string }
